@@ -440,6 +440,15 @@ impl Lock {
         self.cases += 1;
         if self.cases % 1024 == 0 {
             io_background(&mut self.cpu, &mut self.mem, self.cases / 1024);
+            // ... and the background bus-controller settings (zero every third period)
+            {
+                let k = self.cases / 1024;
+                for (i, a) in [0xfee020u32, 0xfee021, 0xfee022, 0xfee023, 0xfee026].iter().enumerate() {
+                    let v = if k % 3 == 0 { 0 } else { ((k.wrapping_mul(0x9e3779b97f4a7c15) >> (8 * i + 3)) & 0xff) as u8 };
+                    self.mem.poke(*a, v);
+                    real_poke(&mut self.cpu, *a, v);
+                }
+            }
             // so does the exit address the loader would have recorded (only run() may look at it)
             let k = self.cases / 1024;
             self.cpu.exit_addr = match k % 3 {
